@@ -42,15 +42,42 @@ PROPS = {
               "Correspondence: each block's delivered set and ApplyEvent call count are compared with 'ancestry of the Atropos minus everything delivered before' "
               "computed by the reference; frames consecutive from 1; Atropos is a root of the frame (reference picks it among roots).",
               props=["LachesisVerif.Props.C02"], level="proof"),
-    "C03": _p("Cheater lists compared with the canonical-order list of validators having an equal-seq pair in the Atropos' ancestry.", streams=["vec", "cons"]),
+    "C03": _p("Proof: on the implementation-level model of the vector index (Model/Vec.lean, run in lock-step with vecengine/vecfc, kernels regenerated) "
+              "the cheater loop of applyAtropos (validators in canonical order filtered by GetMergedHighestBefore(atropos).IsForkDetected) yields, for every "
+              "valid parents-first history of fewer than 2^32-nVals events, every indexed event taken as Atropos and ANY number/weight of forkers, exactly the "
+              "ascending list of validator indices having two different equal-seq events among the ancestors-or-self of that event (C03_cheaters_exact, "
+              "C03_mem_cheaters, C03_cheaters_sorted); a validator that never created two different events with one seq is never listed "
+              "(C03_honest_never_listed). Corollary of C06 (invariants I1/I2 by induction over the history). Not proved: that the event handed to "
+              "applyAtropos is the elected Atropos (C10) and the index->validator-ID map (C12). Correspondence: cheater lists of the real code compared with the "
+              "canonical-order list of validators having an equal-seq pair in the Atropos' ancestry.",
+              props=["LachesisVerif.Props.C03"], level="proof", streams=["vec", "cons"]),
     "C04": _p("Proof: on the model of calcFrameIdx/checkAndSaveEvent (loop condition, cap +100, f==0->1, final comparison regenerated) Process accepts "
               "exactly the allowed frames, Build returns the greatest allowed frame <= spf+100, built-then-processed is accepted, roots are registered for "
               "exactly the frames (spf, frame]; for an arbitrary quorum predicate. That the predicate is the graph one regardless of earlier builds is "
               "covered by correspondence: Build results compared with the highest allowed frame (cap 100) and Process accept/reject with the frame rule of the reference, "
               "including under-claimed and over-claimed frames and events built but never processed.",
               props=["LachesisVerif.Props.C04"], level="proof"),
-    "C05": _p("ForklessCause answers compared with the graph definition for random pairs, under every indexing order and cache size.", streams=["vec", "cons"]),
-    "C06": _p("Merged highest-before vectors (both accessors) compared with fork/max-seq of the graph definition.", streams=["vec", "cons"]),
+    "C05": _p("Proof: on the implementation-level model of the vector index (fillGlobalBranchID, fillEventVectors with the explicit-stack LowestAfter DFS, "
+              "forklessCause; branch conditions regenerated from vecengine/vecfc), for every valid history (parents earlier, seq = self-parent seq + 1), all event pairs, "
+              "all weights and every quorum >= 1: fc = the graph definition (no fork of B's creator in A's ancestry and the unforked validators having an event between B and A hold a quorum) "
+              "- C05_fc_eq_spec; the LowestAfter invariant (C05_lowinv: the DFS with pruning at non-zero entries and fuel (n+1)(n+2) sets exactly the ancestors whose entry was zero); "
+              "answers for old events are unchanged by indexing further events (C05_fc_stable, soundness of the result cache); two parents-first orders of the same graph give the same answers "
+              "(C05_fc_order_independent). Uses the HighestBefore invariants proved for C06 (hb_invariants). Hypotheses: at most i parents for the event at position i (no double parents; needed "
+              "for the model's DFS fuel only), nVals + #events < 2^32 (32-bit branch ids), quorum >= 1 (with quorum 0 code and definition differ on a three-way fork: witness in Props/C05.lean). "
+              "Only covered by correspondence: that the Go code equals the model (LRU result cache warm/cold, every indexing order) - ForklessCause answers compared with the graph definition "
+              "for random pairs, under every indexing order and cache size.",
+              props=["LachesisVerif.Props.C05"], level="proof", streams=["vec", "cons"]),
+    "C06": _p("Proof: for the implementation-level model of the vector index (Model/Vec.lean: fillGlobalBranchID, CollectFrom, the two fork-detection loops, "
+              "GatherFrom / no-fork fast path of GetMergedHighestBefore; kernels regenerated from vecengine/vecfc; run in lock-step with the real code) and EVERY valid "
+              "parents-first history (any forks, forks of forks, any indexing order) of fewer than 2^32-nVals events, every indexed event a and validator c: "
+              "merged = fork iff two different equal-seq events of c are ancestors-or-self of a, otherwise the highest seq of c in that ancestry, 0 if none "
+              "(C06_merged_eq_spec, full strength, both code paths). Proved via invariants by induction over the history: I1 (a global branch is a self-parent chain with "
+              "one event per seq and consecutive seqs) and I2 (HighestBefore entry = (max,min) observed seq of the branch, or the marker on all branches of a creator iff "
+              "a fork of it is visible; overlap test exact) - Proofs/VecHB*.lean, hb_invariants. Hypotheses: what the event checkers guarantee (C13: parents first, "
+              "self-parent first with seq+1, 1 <= seq < 2^31-2, creator a validator) and the 32-bit branch-count bound (AtLeastOneFork compares a uint32). Not proved: "
+              "that the Go code equals the model (correspondence), the adapters wrapper. Correspondence: merged highest-before vectors (both accessors) compared with "
+              "fork/max-seq of the graph definition.",
+              props=["LachesisVerif.Props.C06"], level="proof", streams=["vec", "cons"]),
     "C07": _p("Proof (partial): the forkless-cause result cache (the only volatile state that survives DropNotFlushed) is transparent for every "
               "history of adds, commits, roll-backs, queries and evictions, provided an id never denotes two different events (negative witness for "
               "the pre-fix temporary ids); the Orderer model writes nothing before the frame check. Not proved: determinism of the uncached answer "
